@@ -641,6 +641,9 @@ where
     }
 }
 
+/// Largest piece of a message read (and allocated) at once.
+const READ_MESSAGE_CHUNK: usize = 64 * 1024;
+
 /// Read a complete message from the socket.
 pub async fn read_message<S>(stream: &mut S) -> Result<BytesMut, Error>
 where
@@ -666,33 +669,40 @@ where
         }
     };
 
-    let mut bytes = BytesMut::with_capacity(len as usize + 1);
-
-    bytes.put_u8(code);
-    bytes.put_i32(len);
-
-    bytes.resize(bytes.len() + len as usize - mem::size_of::<i32>(), b'0');
-
-    let slice_start = mem::size_of::<u8>() + mem::size_of::<i32>();
-    let slice_end = slice_start + len as usize - mem::size_of::<i32>();
-
     // Avoids a panic
-    if slice_end < slice_start {
+    if len < mem::size_of::<i32>() as i32 {
         return Err(Error::SocketError(format!(
             "Error reading message from socket - Code: {:?} - Length {:?}, Error: {:?}",
             code, len, "Unexpected length value for message"
         )));
     }
 
-    match stream.read_exact(&mut bytes[slice_start..slice_end]).await {
-        Ok(_) => (),
-        Err(err) => {
-            return Err(Error::SocketError(format!(
-                "Error reading message from socket - Code: {:?}, Error: {:?}",
-                code, err
-            )))
-        }
-    };
+    let header_len = mem::size_of::<u8>() + mem::size_of::<i32>();
+    let message_len = header_len + len as usize - mem::size_of::<i32>();
+
+    // Grow the buffer as the payload arrives instead of allocating the declared
+    // length up front: the length field alone must not cost memory.
+    let mut bytes = BytesMut::with_capacity(message_len.min(header_len + READ_MESSAGE_CHUNK));
+
+    bytes.put_u8(code);
+    bytes.put_i32(len);
+
+    while bytes.len() < message_len {
+        let slice_start = bytes.len();
+        let slice_end = message_len.min(slice_start + READ_MESSAGE_CHUNK);
+
+        bytes.resize(slice_end, b'0');
+
+        match stream.read_exact(&mut bytes[slice_start..slice_end]).await {
+            Ok(_) => (),
+            Err(err) => {
+                return Err(Error::SocketError(format!(
+                    "Error reading message from socket - Code: {:?}, Error: {:?}",
+                    code, err
+                )))
+            }
+        };
+    }
 
     Ok(bytes)
 }
